@@ -17,6 +17,7 @@ from .units import s_replay
 from .units.f import UnitF
 from .units.x import UnitX
 from .units import r_replay
+from .units import x_replay
 import functools as _ft
 
 
@@ -374,8 +375,27 @@ PROPS['C07']['level_text'] = ('(a) Per corpus program, the code EMITTED by the c
 PROPS['C07']['level_note'] += (' L3: contracts of the helper runtime are imported from units R and S (proved there). Stand-ins for yaserde derives. '
                                'Known finding: own facets of a simple type derived from a named simple type are not enforced.')
 
+def x_witness(pid, fails, repo):
+    """failed / undecided obligations of unit X: bounded search over small content-model trees on the real reader (x_replay); other failures: L3 replay"""
+    if not any(getattr(f, 'unit', '') == 'X' for f in fails):
+        return l3_witness(pid, fails, repo)
+    res = x_replay.search(repo)
+    an = res['anomalies']
+    # a witness of an extension clause must be a derived type
+    if all(('import_extension_fields' in f.obligation or 'read_complex_content_node' in f.obligation) for f in fails):
+        an = [a for a in an if a['derived']]
+    out = {'found': bool(an), 'trees_read_by_real_code': res['trees_read_by_real_code'], 'bounded': 'content-model trees of depth <= 3 (1603 schemas)'}
+    if an:
+        out['input'] = an[0]
+        out['more'] = an[1:4]
+        out['total_mismatches'] = res['n']
+    if res.get('error'):
+        out['error'] = res['error'][-600:]
+    return out
+
+
 PROPS['C02'] = {
-    'units': [UnitF, UnitX], 'level': 'translation_validation', 'design_ref': 'DESIGN.md 4.2', 'extra': l3_extra, 'witness': l3_witness,
+    'units': [UnitF, UnitX], 'level': 'translation_validation', 'design_ref': 'DESIGN.md 4.2', 'extra': l3_extra, 'witness': x_witness,
     'scope': 'shape of the emitted structs per corpus program: one struct per named complex/simple type and anonymous-typed global element, in the '
              'module of its namespace, with exactly the declared members (inherited first), names in snake_case (keywords respelled), wrapped '
              'T / Option<T> / Vec<T> by occurrence, typed by the reference mapping of DESIGN 2.2',
@@ -385,7 +405,7 @@ PROPS['C02'] = {
                   'A type error inside a shape contract is the disagreement. Per program, not for all schemas.',
     'level_note': 'The deciding step is rustc\'s type checker inside Verus, not an SMT obligation (reported as translation_validation, never as proof). '
                   'Trusted: the independent reader (vp/l3/model.py) and its PascalCase/snake_case rules, valid for the corpus vocabulary. '
-                  'Additionally the builtin table of field.rs::as_rust_type is PROVED for all strings (unit F, 27 rows + the named-type arm). The FLATTENING of content models is PROVED for all document trees (unit X: import_sequence_node_fields / import_choice_fields / read_sequence_node of complex.rs against a contract-only roxmltree stand-in: one field per member, in document order, nested groups flattened in place, nothing dropped or added; termination by tree height). Not covered: schemas outside the corpus, derive-generated (de)serialisers, the occurrence-flag contract of DESIGN 4.2 on Field::try_from_node (only named by the uninterpreted relation is_field_of).',
+                  'Additionally the builtin table of field.rs::as_rust_type is PROVED for all strings (unit F, 27 rows + the named-type arm). The FLATTENING of content models is PROVED for all document trees (unit X: import_sequence_node_fields / import_choice_fields / read_sequence_node / ComplexProps::try_from_node of complex.rs against a contract-only roxmltree stand-in: one field per member, in document order, nested groups flattened in place, nothing dropped or added; termination by tree height). Not covered: schemas outside the corpus, derive-generated (de)serialisers, the occurrence-flag contract of DESIGN 4.2 on Field::try_from_node (only named by the uninterpreted relation is_field_of).',
     'technique': 'schema-derived ghost shape contracts type-checked by Verus against the code emitted by the current generator',
     'assumptions': ['independent schema reader implements DESIGN 2.1/2.2 faithfully', 'corpus names are in the vocabulary whose case conversion is unambiguous'],
 }
@@ -525,7 +545,7 @@ PROPS['C13'] = {
 }
 
 PROPS['C08'] = {
-    'units': [UnitX], 'level': 'translation_validation', 'design_ref': 'DESIGN.md 4.8', 'extra': l3_extra, 'witness': l3_witness,
+    'units': [UnitX], 'level': 'translation_validation', 'design_ref': 'DESIGN.md 4.8', 'extra': l3_extra, 'witness': x_witness,
     'scope': 'per corpus program with complex types defined by extension (chains of depth 1..4, fan-out, bases declared before / after / in another '
              'file, same or other namespace, own content empty / sequence / choice / attributes): the emitted struct of the derived type has the base '
              'struct\'s members first, in order, then its own, and each element member keeps the prefix of the namespace that declared it',
@@ -536,8 +556,8 @@ PROPS['C08'] = {
     'level_note': 'In addition (unit X, Verus/Z3, for ALL document trees): import_extension_fields and read_complex_content_node of complex.rs are PROVED to yield the '
                   'fields of the base that the document\'s type lookup returns for the QName in base= (local name + namespace bound to its prefix), in the base\'s order, '
                   'followed by one field per member the extension declares, in order. Assumed there: the roxmltree stand-in, find_type_by_xml_name is a function of '
-                  'its arguments (WHAT it finds is C09), Field::try_from_node only named. ComplexProps::try_from_node (the dispatch on complexContent / sequence / attribute) '
-                  'is not under contract. Member ORDER at L3 is checked through the destructuring pattern only as far as names and types distinguish members. Trusted: the independent reader.',
+                  'its arguments (WHAT it finds is C09), Field::try_from_node only named. ComplexProps::try_from_node (the dispatch on complexContent / sequence / attribute) is proved to yield the fields of the content child read last followed by one field per attribute declared after it. '
+                  'Member ORDER at L3 is checked through the destructuring pattern only as far as names and types distinguish members. Trusted: the independent reader.',
     'technique': 'schema-derived ghost shape contracts (base members first) type-checked by Verus against the emitted structs; attribute-text comparison for namespaces',
     'assumptions': ['independent schema reader implements XSD extension semantics (base content, then own content, then attributes in declaration order of each level)'],
 }
